@@ -23,13 +23,13 @@ namespace rkcommon {
 
       void RKCOMMON_INTERFACE waitInternal(Task *task);
 
-      template <typename TASK_T>
-      inline void parallel_for_internal(int nTasks, TASK_T &&fcn)
+      template <typename INDEX_T, typename TASK_T>
+      inline void parallel_for_internal(INDEX_T nTasks, TASK_T &&fcn)
       {
         struct LocalTask : public Task
         {
           const TASK_T &t;
-          LocalTask(int nunTasks, TASK_T &&fcn)
+          LocalTask(uint32_t nunTasks, TASK_T &&fcn)
 
               : Task(nunTasks), t(std::forward<TASK_T>(fcn))
           {
@@ -44,11 +44,13 @@ namespace rkcommon {
           }
         };
 
-        // a task set's size is unsigned: a negative count would wrap around
-        if (nTasks <= 0)
+        // a task set's size is an unsigned 32-bit number: a negative count
+        // would wrap around (a count above INT_MAX is not negative)
+        if (!(nTasks > 0))
           return;
 
-        LocalTask task(nTasks, std::forward<TASK_T>(fcn));
+        LocalTask task(static_cast<uint32_t>(nTasks),
+                       std::forward<TASK_T>(fcn));
         scheduleTaskInternal(&task);
         waitInternal(&task);
       }
